@@ -547,7 +547,7 @@ def conf_pat(seed):
 PROFILES["conf_pat"] = conf_pat
 
 
-def conf_reload(seed):
+def conf_reload(seed, mon=False):
     """conformance profile for reloadconfig: the arbiter is booted from a real ini file; the file is edited (sections
     added, removed, numprocesses changed, other keys changed) and reloaded, with worker deaths, ticks and other
     requests in between and while a reload is in flight"""
@@ -612,7 +612,8 @@ def conf_reload(seed):
                 d["k"] = rng.randint(1, 8)
             s.append(d)
         elif r < 0.85 and have:
-            c = rng.choice(["status", "list", "incr", "stop", "start", "numprocesses", "restart"])
+            c = rng.choice(["status", "list", "numprocesses", "stats"] if mon else
+                           ["status", "list", "incr", "stop", "start", "numprocesses", "restart"])
             s.append({"op": "req", "cmd": c, "props": {"name": rng.choice(have), "waiting": rng.random() < 0.5}})
         else:
             s.append({"op": "tick", "n": rng.randint(1, 6)})
@@ -622,3 +623,12 @@ def conf_reload(seed):
 
 
 PROFILES["conf_reload"] = conf_reload
+
+
+def reloadmon(seed):
+    """C12 under schedules: as conf_reload, but only the file and reloadconfig ever change the daemon's settings
+    (the statement quantifies over edit sequences, not over incr / stop requests in between)"""
+    return conf_reload(seed, mon=True)
+
+
+PROFILES["reloadmon"] = reloadmon
